@@ -91,7 +91,13 @@ func (c *Ctx) phase(name string) bool {
 	return ok
 }
 
-func (c *Ctx) cleanup() { os.RemoveAll(c.Scratch) }
+func (c *Ctx) cleanup() {
+	if os.Getenv("VERIF_KEEP") != "" { // diagnostic: keep traces, generated modules and TLC output
+		fmt.Println("scratch kept at", c.Scratch)
+		return
+	}
+	os.RemoveAll(c.Scratch)
+}
 
 func (c *Ctx) quick() bool { return c.Tier != "thorough" }
 
